@@ -238,10 +238,12 @@ def decl_source(d, doc=False, derive_debug_enums=True, vis="pub "):
         # a doc comment may legally stand before or after the bit attribute: alternate
         after = (doc or f.get("doc", False)) and k % 2 == 1
         if (doc or f.get("doc", False)) and not after:
-            out.append("    /// field %s" % strip_raw(f["name"]))
+            # the spellings of a doc comment: ///, #[doc = ".."], #[doc = concat!(..)] (a macro call as the value), /** .. */
+            nm = strip_raw(f["name"])
+            out.append(["    /// field %s", "    #[doc = \"field %s\"]", "    #[doc = concat!(\"field \", \"%s\")]", "    /** field %s */"][(k // 2) % 4] % nm)
         out.append("    " + attr_text(f))
         if after:
-            out.append("    /// field %s (documented after the attribute)" % strip_raw(f["name"]))
+            out.append(["    /// field %s (documented after the attribute)", "    #[doc = concat!(\"field %s\", \" (after, through concat!)\")]"][(k // 2) % 2] % strip_raw(f["name"]))
         t = field_type(d, f)
         if f["array"]:
             t = "[%s; %d]" % (t, f["array"][0])
